@@ -122,7 +122,7 @@ func (p *c12TokenProvider) ClientFor(name string) (*clusters.ClusterInfo, kubern
 // verif:bounds 2 clusters (A with 2 host names, B), unknown host; k = 2 requests (quick) / 3 (thorough); tokens 1 symbolic byte; caching enabled or disabled
 func HarnessC12Authentication() {
 	ghostC12TokenReviewsA, ghostC12TokenReviewsB = 0, 0
-	p := &c12TokenProvider{a: &clusters.ClusterInfo{Cluster: "a"}, b: &clusters.ClusterInfo{Cluster: "b"}}
+	p := &c12TokenProvider{a: c12TokenProviderCluster("a"), b: c12TokenProviderCluster("b")}
 	ttl := time.Duration(0)
 	if nondetBool("cachingEnabled") {
 		ttl = time.Minute
@@ -161,4 +161,12 @@ func HarnessC12Authentication() {
 		}
 	}
 	vreach("end")
+}
+
+// natively the authenticator/authorizer starts a goroutine waiting on the cluster's context: give it a real one there
+func c12TokenProviderCluster(name string) *clusters.ClusterInfo {
+	if vnative() {
+		return clusters.NewEmptyClusterInfo(name, nil, nil, "", nil)
+	}
+	return &clusters.ClusterInfo{Cluster: name}
 }
